@@ -429,11 +429,9 @@ func keyExchange(klen int, ida, idb []byte, pri *PrivateKey, pub *PublicKey, rpr
 		return
 	}
 	vxBuf, vyBuf := bigTo32Bytes(vx), bigTo32Bytes(vy)
-	k, ok := kdf(klen, vxBuf, vyBuf, za, zb)
-	if !ok {
-		err = errors.New("kdf: zero key")
-		return
-	}
+	// GM/T 0003.3 (steps A7/B6) takes KDF(xV || yV || ZA || ZB, klen) as the key whatever its value;
+	// only the encryption scheme of GM/T 0003.4 rejects an all-zero KDF output.
+	k, _ = kdf(klen, vxBuf, vyBuf, za, zb)
 	// Hash(xV || ZA || ZB || x1 || y1 || x2 || y2) with (x1,y1) = RA and (x2,y2) = RB
 	h1 := BytesCombine(vxBuf, za, zb, bigTo32Bytes(rpri.X), bigTo32Bytes(rpri.Y), bigTo32Bytes(rpub.X), bigTo32Bytes(rpub.Y))
 	if !thisISA {
